@@ -602,6 +602,10 @@ type sink struct {
 	rec     *recorder
 	fwd     []api.Update
 	inSyncs int
+	calls   int
+	// per forwarded update: the events the calculator emitted while consuming it
+	perEvs    [][]string
+	perSample [][]string
 }
 
 func (s *sink) OnStatusUpdated(st api.SyncStatus) {
@@ -609,8 +613,11 @@ func (s *sink) OnStatusUpdated(st api.SyncStatus) {
 	s.status(st)
 }
 func (s *sink) OnUpdates(us []api.Update) {
+	// the forwarded batch, exactly as the filter handed it over; events are attributed to the single updates
+	s.fwd = append(s.fwd, us...)
+	s.calls++
 	for _, u := range us {
-		s.fwd = append(s.fwd, u)
+		s.rec.evs, s.rec.sample = nil, nil
 		func() {
 			defer func() {
 				if r := recover(); r != nil {
@@ -620,7 +627,10 @@ func (s *sink) OnUpdates(us []api.Update) {
 			}()
 			s.next(u)
 		}()
+		s.perEvs = append(s.perEvs, s.rec.evs)
+		s.perSample = append(s.perSample, s.rec.sample)
 	}
+	s.rec.evs, s.rec.sample = nil, nil
 }
 
 // whole-graph mode: messages flushed by the real EventSequencer
@@ -735,9 +745,9 @@ func runCase(r *rng, enc *json.Encoder, graph bool, uaStream bool, viaTypha bool
 		es := calc.NewEventSequencer(gconf)
 		es.Callback = rec.onProto
 		cg := calc.NewCalculationGraph(es, calc.NewLookupsCache(), gconf, func() {})
-		sk.next = func(u api.Update) { cg.OnUpdates([]api.Update{u}) }
-		sk.status = cg.OnStatusUpdated
 		flush = func() { cg.Flush(); es.Flush() }
+		sk.next = func(u api.Update) { cg.OnUpdates([]api.Update{u}); flush() }
+		sk.status = cg.OnStatusUpdated
 		fvf = calc.NewValidationFilter(sk, gconf)
 	} else {
 		arc := calc.NewActiveRulesCalculator()
@@ -760,12 +770,142 @@ func runCase(r *rng, enc *json.Encoder, graph bool, uaStream bool, viaTypha bool
 	var ops, keyParts, sample []string
 	tags := map[string]bool{}
 	sawDummy, sawReplace, sawInvalidOverValid, sawDeleteWhileRef := false, false, false, false
+	multiInvalid := false
 	dummyOut := map[int]bool{}
 
-	for j := 0; j < nops; j++ {
-		if j == syncAt {
-			vf.OnStatusUpdated(api.InSync)
+	// updates are delivered to the filter in BATCHES (OnUpdates takes a slice): a start-of-day snapshot first, then
+	// single updates and coalesced bursts; some batches are invalid-heavy (2-3+ invalid values at any positions)
+	type pendingOp struct {
+		key            model.Key
+		coqKey, cv, kp string
+		valid          bool
+		val, pristine  any
+		profsSnap      map[int]bool
+	}
+	var pending []pendingOp
+	var sizes []string
+	synced := false
+	nextBatch := func(first bool) (int, bool) {
+		heavy := r.intn(3) == 0
+		if first {
+			return 3 + r.intn(4), heavy
 		}
+		switch r.intn(6) {
+		case 0, 1:
+			return 1, false
+		case 2:
+			return 2, heavy
+		default:
+			return 2 + r.intn(5), heavy
+		}
+	}
+	batchSize, heavy := nextBatch(true)
+	forceInv := false
+	deliver := func() {
+		n := len(pending)
+		batch := make([]api.Update, n)
+		for x, po := range pending {
+			batch[x] = api.Update{KVPair: model.KVPair{Key: po.key}, UpdateType: api.UpdateTypeKVUpdated}
+			if po.val != nil {
+				batch[x].Value = po.val
+			} else {
+				batch[x].UpdateType = api.UpdateTypeKVDeleted
+			}
+		}
+		orig := append([]api.Update(nil), batch...)
+		sk.fwd, sk.perEvs, sk.perSample, sk.calls = nil, nil, nil, 0
+		filterPanic := ""
+		func() {
+			defer func() {
+				if r := recover(); r != nil {
+					filterPanic = fmt.Sprint(r)
+				}
+			}()
+			vf.OnUpdates(batch)
+		}()
+		shapeOK := filterPanic == "" && sk.calls == 1 && len(sk.fwd) == n && len(sk.perEvs) == n
+		nInv := 0
+		for x, po := range pending {
+			if !po.valid {
+				nInv++
+			}
+			fwd := "FOther"
+			var evsRaw, smp []string
+			if shapeOK {
+				evsRaw, smp = sk.perEvs[x], sk.perSample[x]
+				if reflect.DeepEqual(sk.fwd[x].Key, po.key) {
+					fv := sk.fwd[x].Value
+					switch {
+					case fv == nil:
+						fwd = "FNil"
+					case po.val != nil && po.valid && reflect.DeepEqual(fv, po.pristine):
+						fwd = "FSame"
+					case po.val != nil && !po.valid && reflect.ValueOf(fv).Pointer() == reflect.ValueOf(po.val).Pointer():
+						// the invalid object itself came through
+						fwd = "FSame"
+					}
+				}
+				// the caller's slice must not be changed under the caller's feet
+				if !reflect.DeepEqual(batch[x].Key, orig[x].Key) || batch[x].UpdateType != orig[x].UpdateType ||
+					(batch[x].Value == nil) != (orig[x].Value == nil) ||
+					(batch[x].Value != nil && reflect.ValueOf(batch[x].Value).Pointer() != reflect.ValueOf(orig[x].Value).Pointer()) {
+					fwd = "FOther"
+					smp = append(smp, "CALLER-SLICE-MUTATED")
+					tags["caller-slice-mutated"] = true
+				}
+			} else if x == 0 {
+				evsRaw = []string{"EPanic"}
+				smp = []string{fmt.Sprintf("FILTER-BROKE-BATCH(panic=%q calls=%d forwarded=%d of %d)", filterPanic, sk.calls, len(sk.fwd), n)}
+			}
+			for _, e := range evsRaw {
+				if strings.HasPrefix(e, "EProfActive") {
+					var id int
+					fmt.Sscanf(e, "EProfActive %d", &id)
+					isDummy := strings.Contains(e, "(PR [(R Deny None [] 0)] [(R Deny None [] 0)])")
+					if isDummy && !po.profsSnap[id] {
+						sawDummy = true
+						dummyOut[id] = true
+					}
+				}
+			}
+			var evs []string
+			for _, e := range evsRaw {
+				if strings.Contains(e, " ") {
+					evs = append(evs, "("+e+")")
+				} else {
+					evs = append(evs, e)
+				}
+			}
+			ops = append(ops, fmt.Sprintf("O (%s) (%s) %v %s [%s]", po.coqKey, po.cv, po.valid, fwd, strings.Join(evs, "; ")))
+			pos := ""
+			if n > 1 {
+				pos = fmt.Sprintf("[batch %d, %d/%d] ", len(sizes), x+1, n)
+			}
+			sample = append(sample, fmt.Sprintf("%s%s -> fwd=%s %s", pos, po.kp, fwd, strings.Join(smp, " ")))
+		}
+		sizes = append(sizes, fmt.Sprint(n))
+		if n > 6 {
+			tags["batch:size>6"] = true
+		} else {
+			tags[fmt.Sprintf("batch:size=%d", n)] = true
+		}
+		if nInv >= 3 {
+			tags["batch:invalid>=3"] = true
+		} else {
+			tags[fmt.Sprintf("batch:invalid=%d", nInv)] = true
+		}
+		if nInv >= 2 {
+			multiInvalid = true
+		}
+		pending = nil
+	}
+
+	for j := 0; j < nops; j++ {
+		if len(pending) == 0 && !synced && j >= syncAt {
+			vf.OnStatusUpdated(api.InSync)
+			synced = true
+		}
+		forceInv = heavy && r.intn(5) < 3
 		var key model.Key
 		var coqKey, coqVal, desc string
 		var val, pristine any
@@ -779,6 +919,9 @@ func runCase(r *rng, enc *json.Encoder, graph bool, uaStream bool, viaTypha bool
 			coqKey = fmt.Sprintf("KEp %d", id)
 			_, exists := w.eps[id]
 			c := r.intn(10)
+			if forceInv {
+				c = 9
+			}
 			if c < 2 && exists {
 				desc = fmt.Sprintf("delete ep %d", id)
 				delete(w.eps, id)
@@ -818,6 +961,9 @@ func runCase(r *rng, enc *json.Encoder, graph bool, uaStream bool, viaTypha bool
 			coqKey = fmt.Sprintf("KProf %d", id)
 			exists := w.profs[id]
 			c := r.intn(10)
+			if forceInv {
+				c = 9
+			}
 			if c < 2 && (exists || r.intn(4) == 0) {
 				desc = fmt.Sprintf("delete profile %d", id)
 				if exists && w.referenced(id) {
@@ -851,6 +997,9 @@ func runCase(r *rng, enc *json.Encoder, graph bool, uaStream bool, viaTypha bool
 			coqKey = fmt.Sprintf("KPol %d", id)
 			exists := w.pols[id]
 			c := r.intn(10)
+			if forceInv {
+				c = 9
+			}
 			if c < 2 && (exists || r.intn(4) == 0) {
 				desc = fmt.Sprintf("delete policy %d", id)
 				delete(w.pols, id)
@@ -889,76 +1038,31 @@ func runCase(r *rng, enc *json.Encoder, graph bool, uaStream bool, viaTypha bool
 			}
 		}
 
-		upd := api.Update{KVPair: model.KVPair{Key: key}, UpdateType: api.UpdateTypeKVUpdated}
-		if val != nil {
-			upd.Value = val
-		} else {
-			upd.UpdateType = api.UpdateTypeKVDeleted
-		}
-		rec.evs, rec.sample = nil, nil
-		sk.fwd = nil
-		func() {
-			defer func() {
-				if r := recover(); r != nil {
-					rec.evs = append(rec.evs, "EPanic")
-					rec.sample = append(rec.sample, fmt.Sprintf("PANIC-IN-FILTER(%v)", r))
-				}
-			}()
-			vf.OnUpdates([]api.Update{upd})
-			flush()
-		}()
-
-		// what did the filter forward?
-		fwd := "FOther"
-		if len(sk.fwd) == 1 && reflect.DeepEqual(sk.fwd[0].Key, key) {
-			fv := sk.fwd[0].Value
-			switch {
-			case fv == nil:
-				fwd = "FNil"
-			case val != nil && valid && reflect.DeepEqual(fv, pristine):
-				fwd = "FSame"
-			case val != nil && !valid && reflect.ValueOf(fv).Pointer() == reflect.ValueOf(val).Pointer():
-				// the invalid object itself came through
-				fwd = "FSame"
-			}
-		}
-
-		for _, e := range rec.evs {
-			if strings.HasPrefix(e, "EProfActive") {
-				var id int
-				fmt.Sscanf(e, "EProfActive %d", &id)
-				isDummy := strings.Contains(e, "(PR [(R Deny None [] 0)] [(R Deny None [] 0)])")
-				if isDummy && !w.profs[id] {
-					sawDummy = true
-					dummyOut[id] = true
-				}
-			}
-		}
-
 		cv := "None"
 		if coqVal != "" {
 			cv = "Some (" + coqVal + ")"
 		}
-		var evs []string
-		for _, e := range rec.evs {
-			if strings.Contains(e, " ") {
-				evs = append(evs, "("+e+")")
-			} else {
-				evs = append(evs, e)
-			}
-		}
-		ops = append(ops, fmt.Sprintf("O (%s) (%s) %v %s [%s]",
-			coqKey, cv, valid, fwd, strings.Join(evs, "; ")))
 		kp := desc
 		if invalidHow != "" {
 			kp += " INVALID(" + invalidHow + ")"
 			tags["invalid:"+lastPart(invalidHow)] = true
 		}
 		keyParts = append(keyParts, kp)
-		sample = append(sample, fmt.Sprintf("%s -> fwd=%s %s", kp, fwd, strings.Join(rec.sample, " ")))
+		snap := map[int]bool{}
+		for k, v := range w.profs {
+			snap[k] = v
+		}
+		pending = append(pending, pendingOp{key: key, coqKey: coqKey, cv: cv, kp: kp, valid: valid, val: val, pristine: pristine, profsSnap: snap})
+		if len(pending) >= batchSize || j == nops-1 {
+			deliver()
+			batchSize, heavy = nextBatch(false)
+		}
 	}
 
-	coq := fmt.Sprintf("(Build_case %v [%s]%%N)", graph, strings.Join(ops, ";\n "))
+	coq := fmt.Sprintf("(Build_case %v [%s]%%nat [%s]%%N)", graph, strings.Join(sizes, ";"), strings.Join(ops, ";\n "))
+	if multiInvalid {
+		tags["multi-invalid-batch"] = true
+	}
 	if uaStream {
 		tags["stream:unknown-action"] = true
 	}
@@ -992,7 +1096,7 @@ func runCase(r *rng, enc *json.Encoder, graph bool, uaStream bool, viaTypha bool
 		tl = append(tl, t)
 	}
 	sort.Strings(tl)
-	_ = enc.Encode(line{Coq: coq, NT: sawDummy && (sawReplace || sawInvalidOverValid || sawDeleteWhileRef), Key: fmt.Sprintf("graph=%v;ua=%v;typha=%v;hl=%v;", graph, uaStream, viaTypha, hlStream) + strings.Join(keyParts, ";"),
+	_ = enc.Encode(line{Coq: coq, NT: sawDummy && (sawReplace || sawInvalidOverValid || sawDeleteWhileRef), Key: fmt.Sprintf("graph=%v;ua=%v;typha=%v;hl=%v;sizes=%s;", graph, uaStream, viaTypha, hlStream, strings.Join(sizes, ",")) + strings.Join(keyParts, ";"),
 		Sample: map[string]any{"trace": sample}, Tags: tl})
 }
 
